@@ -56,11 +56,11 @@ def probe(w, s, entry):
     elif entry == "get":
         o = w.send("get", s)
     else:
-        c = drivers.call(fast.GetIter, s)
+        c = drivers.call(fast.GetIter, s, 10) if entry == "bulk" else drivers.call(fast.GetIter, s)
         if c.kind != "ok":
             return c, None, None
         it = c.value
-        o = w.send("getnext", it=it)
+        o = w.send("getbulk" if entry == "bulk" else "getnext", it=it)
     if o.kind != "ok":
         stray = w.take_request(wait=0)
         return o, (b"<sent>" if stray is not None else None), None
@@ -68,7 +68,7 @@ def probe(w, s, entry):
     if data is None:
         return o, None, None
     try:
-        req = rb.parse_message(data, strict=False)
+        req = rb.parse_message(data, strict=True)
     except rb.StrictError:
         return o, b"<unparsable>", None
     if not req.oid_contents or len(req.oid_contents) != 1:
@@ -146,9 +146,12 @@ def work(chunk):
             first = case["first"]
             it = (".".join(str(a) for a in (first,) + t) for k in case["ks"] for t in itertools.product(ARCS, repeat=k))
             entries = ("get_many",)
+        elif kind == "followups":
+            run_followups(case, res, w)
+            continue
         else:
             it = iter(case["strings"])
-            entries = ("get_many", "get", "iter")
+            entries = ("get_many", "get", "iter", "bulk")
         for s in it:
             for entry in entries:
                 out, wire, echoed = probe(w, s, entry)
@@ -166,6 +169,50 @@ def work(chunk):
                     res.sample({"input": s, "entry": entry, "wire_oid": wire.hex(), "echoed": echoed if isinstance(echoed, str) else None})
     w.close()
     return res
+
+
+FBASE = (1, 3, 6, 1, 4, 1, 9)
+FOLLOW = sorted(FBASE + t for t in ((1, 1, 1000), (1, 2, 1), (1, 2, 1, 5), (1, 300), (2,), (2, 16384, 1), (2, 16384, 2097152, 7), (3,), (3, 0), (4294967295,)))
+
+
+def run_followups(case, res, w):
+    """The OID of every follow-up request of a walk is exactly the OID the previous reply named - for every increasing
+    sequence of reply OIDs whose encodings grow and shrink."""
+    mod, fast = drivers.subject()
+    for method in ("getnext", "getbulk"):
+        for n in range(1, case["depth"] + 1):
+            for seq in itertools.combinations(FOLLOW, n):
+                it = fast.GetIter(rb.oid_str(FBASE), 10) if method == "getbulk" else fast.GetIter(rb.oid_str(FBASE))
+                want = FBASE
+                res.count("inputs")
+                res.count("accepted")
+                res.distinct()
+                res.outcome("followups")
+                for step, oid in enumerate(seq + (None,)):
+                    o = w.send(method, it=it)
+                    data = w.take_request() if o.kind == "ok" else None
+                    prob = None
+                    if data is None:
+                        prob = "request %d not sent: %r" % (step, o.brief())
+                    else:
+                        try:
+                            req = rb.parse_message(data, strict=True)
+                            if list(req.oids) != [want]:
+                                prob = "request %d names %s, the walk is at %s" % (step, [rb.oid_str(x) for x in req.oids], rb.oid_str(want))
+                        except rb.StrictError as e:
+                            prob = "request %d is not a well-formed message: %s" % (step, e)
+                    if prob:
+                        res.violation("followup/%s/step%d: %s" % (method, min(step, 3), re.sub(r"[0-9.]{4,}", "OID", prob)[:60]), "replies %s: %s" % ([rb.oid_str(x) for x in seq], prob), {"kind": "followups", "depth": case["depth"]})
+                        break
+                    if oid is None:
+                        break
+                    pdu = rb.build_pdu(rb.PDU_RESPONSE, req.request_id, 0, 0, [(oid, rb.enc_int(step))])
+                    w.inject(rb.build_community_msg(req.version, req.community, pdu))
+                    r = w.recv(method, it)
+                    if r.kind != "ok":
+                        res.violation("followup/%s/reply-refused" % method, "replies %s: reply %d (%s) raised %r" % ([rb.oid_str(x) for x in seq], step, rb.oid_str(oid), r.brief()), {"kind": "followups", "depth": case["depth"]})
+                        break
+                    want = oid
 
 
 def gen_cases(tier):
@@ -189,15 +236,25 @@ def gen_cases(tier):
                 "1.3.6\n", "1.3.0x10", "1.3.1e3", "١.٣.٦", "1.3.6.１", "+1.3.6", "1.+3.6", "01.3.6", "1.03.6", "1.3.00", "2.40", "2.100.3", "1.3.99999999999999999999", "1.3.6." + "9" * 40]
     for a in ARCS:
         special += ["1.3.%d" % a, "1.3.6.%d.0" % a, "2.39.%d.%d" % (a, a), "0.%d" % a, "%d.3" % a]
+    # long OIDs whose BER content crosses 127/128 and 255/256 octets (arcs of 1..5 octets), through every entry incl. GetBulk
+    for arc, per in ((1, 1), (300, 2), (70000, 3), (3000000, 4), (4294967295, 5)):
+        for n in (24, 25, 26, 27, 31, 32, 33, 42, 43, 44, 50, 51, 52, 63, 64, 65, 84, 85, 86, 126, 127, 128):
+            special.append("1.3" + (".%d" % arc) * (n - 2))
     yield {"kind": "list", "strings": special}
+    yield {"kind": "followups", "depth": 4 if thorough else 3}
 
 
 def replay(case):
     common.prepare_stage()
     w = drivers.SplitWorld(Cfg("v2c"))
     out = []
+    if case.get("kind") == "followups":
+        res = common.Result()
+        run_followups(case, res, w)
+        w.close()
+        return [(v[0], v[1]) for v in res["violations"]]
     for s in case["strings"]:
-        for entry in ("get_many", "get", "iter"):
+        for entry in ("get_many", "get", "iter", "bulk"):
             o, wire, echoed = probe(w, s, entry)
             out.append({"input": s, "entry": entry, "outcome": o.brief(), "wire": wire.hex() if wire else None, "echoed": echoed if isinstance(echoed, str) else None, "verdict": judge(s, entry, o, wire, echoed)})
     w.close()
@@ -210,7 +267,8 @@ def run(tier):
     maxlen = 7 if tier == "thorough" else 6
     rec.rule = (
         "(a) every string of length 0..%d over the alphabet %r through get_many; (b) every OID of 2..4 arcs over the boundary arcs %s; (c) 2..130-arc OIDs, sign/padding/whitespace/unicode "
-        "specials through get_many, get and GetIter. Non-trivial = the input was accepted (a request was emitted and checked on the wire and echoed back)." % (maxlen, ALPHABET, ARCS)
+        "specials and long OIDs crossing 127/128 and 255/256 content octets with arcs of 1..5 octets, through get_many, get, GetIter/GetNext and GetIter/GetBulk (request must be strictly well-formed); (d) walks: for every increasing sequence of <= %d reply OIDs "
+        "out of 10 whose encodings grow and shrink, each follow-up request (GetNext, GetBulk) names exactly the OID of the previous reply. Non-trivial = the input was accepted (a request was emitted and checked on the wire and echoed back)." % (maxlen, ALPHABET, ARCS, 4 if tier == "thorough" else 3)
     )
     rec.assume(
         "canonical dotted decimal with >=2 arcs, first 0..2, second 0..39, arcs <= 2^32-1 and <= 128 arcs must be accepted; anything else may be refused, or - only if every component is a "
